@@ -146,8 +146,10 @@ PROPS = {
                          (30, 120), (600, 150), 'C05,C01,C04', ['-routed', '20', '-fail', '15', '-crash', '2', '-known', 'F5'], (200, 150)),
                  sysdiff('sysdiff-callbacks-focus', ['ReadPromise', 'CreatePromise', 'CompletePromise', 'CreateCallback', 'CreateSubscription'], (15, 60), (500, 80), 'C05,C01',
                          ['-focus', '-fail', '5', '-known', 'F5'], (300, 80)),
+                 sysdiff('sysdiff-callbacks-collide', ['CreatePromise', 'CompletePromise', 'CreateCallback', 'CreateSubscription'], (25, 150), (500, 200), 'C05,C01',
+                         ['-hostile', '-routed', '0', '-fail', '3', '-crash', '0', '-known', 'F5'], (300, 200)),
                  storediff('storediff-callbacks', ['CreatePromise', 'UpdatePromise', 'CreateCallback', 'DeleteCallbacks', 'CreateTasks', 'CompleteTasks', 'ReadTask', 'ReadPromise'], (20, 30), (500, 40))],
-        rule=SYS_RULE + '; the C05 monitor (every registration awaits a pending promise; a promise completed in a batch had every registration turned into exactly one identical task) runs on every committed batch of the implementation',
+        rule=SYS_RULE + '; the C05 monitor (every registration awaits a pending promise; a promise completed in a batch had every registration turned into exactly one identical task) runs on every committed batch of the implementation; sysdiff-callbacks-collide draws promise, root and subscription ids whose derived registration ids collide (root a + promise b:c and root a:b + promise c both give __resume:a:b:c; likewise __notify:a:b:c), so that a completion meets a task that already carries its registration\'s id',
         assumptions=['completion requests carry a state in {resolved, rejected, canceled} (front-end validation)'],
         trusted_base=['coroutine control flow and kernel tick are modelled by hand (Model/Coroutines, Model/System) and tied by sysdiff'],
     ),
@@ -218,6 +220,8 @@ PROPS = {
         modules=['Resonate.Properties.C11'],
         tie_filter=r'promiseSelectAll|promiseUpdate|taskSelectAll|taskUpdate|lockTimeout|scheduleSelectAll|scheduleUpdate|taskSelectEnqueueable|shape|wiring',
         harness=[sysdiff('sysdiff-converge', None, (20, 100), (400, 150), 'C11,C01', ['-smallcfg', '-routed', '50', '-fail', '10', '-crash', '1', '-known', 'F16,F18,F5'], (120, 120)),
+                 sysdiff('sysdiff-converge-collide', ['CreatePromise', 'CompletePromise', 'CreateCallback', 'CreateSubscription'], (8, 120), (150, 150), 'C11',
+                         ['-hostile', '-routed', '0', '-fail', '3', '-crash', '0', '-known', 'F2,F16,F18,F5'], (60, 120)),
                  dict(bin='stackrun', name='stackrun', quick=['-rounds', '45'], thorough=['-rounds', '1000'], search=['-rounds', '300'])],
         rule=SYS_RULE + '; after every script the clients stop and the server idles: each cycle advances the clock by the signal timeout and then ticks until nothing is in flight (every hand-off succeeds, '
              'no injected failure); batch sizes (promise / schedule / task 1..100), pool and queue sizes (down to 1), enqueue delay and signal timeout are drawn per script; the C11 monitor gives every '
